@@ -473,6 +473,7 @@ impl World {
 
     /// compares the real directory and the policy consultations with the model state
     pub fn compare(&self, real: &Real, st: &MState) -> Result<(), (String, String)> {
+        wait_quiescent(&real.sb.dir);
         let snap = files(&snapshot(&real.sb.dir));
         let mut got: BTreeMap<String, Vec<u8>> = BTreeMap::new();
         for (name, bytes) in &snap {
@@ -541,6 +542,7 @@ impl World {
     /// archives oldest→newest followed by the active file must be a suffix of the acknowledged
     /// stream that starts at a record boundary, and every file boundary is a record boundary.
     pub fn stream_check(&self, real: &Real, st: &MState) -> Result<(), (String, String)> {
+        wait_quiescent(&real.sb.dir);
         let snap = files(&snapshot(&real.sb.dir));
         let mut order: Vec<String> = vec![];
         if let RollerK::Fixed { base, count, .. } = &self.roller {
@@ -582,6 +584,33 @@ impl World {
             }
         }
         Ok(())
+    }
+}
+
+/// With the `background_rotation` feature the roller renames the rolled file to `<stem>.<seconds>` and
+/// rotates in a thread of its own; the rotation is complete when that temporary file is gone.  The
+/// interleavings of that thread are not explored (DESIGN §8): every observation waits for quiescence.
+pub fn wait_quiescent(dir: &std::path::Path) {
+    if !cfg!(feature = "background_rotation") {
+        return;
+    }
+    let start = std::time::Instant::now();
+    loop {
+        let busy = std::fs::read_dir(dir)
+            .map(|rd| {
+                rd.flatten().any(|e| {
+                    let n = e.file_name().to_string_lossy().into_owned();
+                    match n.rsplit_once('.') {
+                        Some((_, ext)) => !ext.is_empty() && ext.len() >= 9 && ext.bytes().all(|b| b.is_ascii_digit()),
+                        None => false,
+                    }
+                })
+            })
+            .unwrap_or(false);
+        if !busy || start.elapsed() > std::time::Duration::from_secs(5) {
+            return;
+        }
+        std::thread::sleep(std::time::Duration::from_micros(200));
     }
 }
 
